@@ -156,7 +156,7 @@ class Ctx:
         self.counters['violations'] += 1
         if len(self.violations) < self.MAX_WITNESS:
             self.violations.append(
-                {'unit': self.unit, 'message': message, 'witness': jsonable(witness) if witness is not None else None}
+                {'unit': self.unit, 'message': message, 'witness': jsonable(witness) if witness is not None else None, 'interpreter': {'hashseed': os.environ.get('PYTHONHASHSEED'), 'optimize': int(sys.flags.optimize)}}
             )
 
     def known_finding(self, key: str, message: str):
@@ -301,6 +301,8 @@ def run_units(mod, units, seed, tier, budget_s, only=None) -> Ctx:
                     sys.stderr.write(f'[gv] harness error in unit {unit}:\n{tb}\n')
         if sys.flags.optimize:
             ctx.count('units_run_with_assertions_stripped(python -O)')
+        if os.environ.get('PYTHONHASHSEED', '0') not in ('0', ''):
+            ctx.count('units_run_under_a_shard_specific_string_hash_seed')
         mon_ = getattr(mod, '_mon', None)
         if mon_ is not None and hasattr(mon_, 'end_of_unit'):
             mon_.end_of_unit(ctx)
@@ -443,6 +445,10 @@ def main(argv=None) -> int:
             env.setdefault('OMP_NUM_THREADS', '1')
             env.setdefault('OPENBLAS_NUM_THREADS', '1')
             env.setdefault('MKL_NUM_THREADS', '1')
+            # string hashing is part of the interpreter configuration too: unless the caller pins PYTHONHASHSEED, every
+            # shard gets its own (deterministic) seed, so iteration orders of sets of labels / species differ between
+            # shards; the seed of the shard that saw a violation is stored in the replay file
+            vary_hash = 'PYTHONHASHSEED' not in os.environ
             env.setdefault('PYTHONHASHSEED', '0')
             env['GV_LIMIT'] = str(args.limit or 0)
             procs = []
@@ -451,7 +457,9 @@ def main(argv=None) -> int:
                 log = open(os.path.join(tmpdir, f'shard{sh}.log'), 'w')
                 # interpreter configuration is part of the workload: every third shard runs with assertions
                 # stripped (python -O), where the library's `assert` statements (and anything hidden in them) vanish
-                env_sh = dict(env, PYTHONOPTIMIZE='1') if sh % 3 == 2 and not os.environ.get('GV_NO_OPTIMIZE') else env
+                env_sh = dict(env, PYTHONOPTIMIZE='1') if sh % 3 == 2 and not os.environ.get('GV_NO_OPTIMIZE') else dict(env)
+                if vary_hash:
+                    env_sh['PYTHONHASHSEED'] = str((seed * 101 + sh * 7919) % 4294967295)
                 p = subprocess.Popen(
                     [sys.executable, '-m', 'gv.worker', pid, tier, str(seed), str(sh), str(nshards), out, str(budget)],
                     cwd=VERIF,
@@ -614,6 +622,16 @@ def replay(path: str) -> int:
     if unit is None:
         print(f'[gv] replay file {path} has no unit (aggregate finding): {rec["message"]}')
         return 1
+    interp = rec.get('interpreter') or {}
+    want_hash, want_opt = interp.get('hashseed'), int(interp.get('optimize') or 0)
+    if (want_hash is not None and os.environ.get('PYTHONHASHSEED') != want_hash) or want_opt != int(sys.flags.optimize):
+        # re-run under the interpreter configuration of the shard that recorded the violation
+        env = dict(os.environ, PYTHONPATH=VERIF + os.pathsep + os.environ.get('PYTHONPATH', ''))
+        if want_hash is not None:
+            env['PYTHONHASHSEED'] = want_hash
+        env.pop('PYTHONOPTIMIZE', None)
+        cmd = [sys.executable] + (['-O'] if want_opt else []) + ['-m', 'gv', pid, '--replay', path]
+        return subprocess.call(cmd, cwd=VERIF, env=env)
     bind_code_under_test()
     mod = load_prop(pid)
     ctx = run_units(mod, [unit], seed, tier, 0)
